@@ -55,7 +55,7 @@ package ckks
 // ---- no residue in the output of a scalar operation (property C09): the output element has exactly
 // ---- the degree of the input, whatever degree it had before ----
 //@ afunc Evaluator.Mul#scalar
-//@   property C09
+//@   property C09 C06
 //@   dyn op1 float64
 //@   nilable
 //@   requires len(op0.Value) >= 1 && len(op0.Value) <= 3
@@ -68,14 +68,14 @@ package ckks
 //@   trusted opaque at the abstract level: applies the row operation to the first len(p0) components (values not tracked)
 
 //@ afunc Evaluator.Add#scalar
-//@   property C09
+//@   property C09 C06
 //@   dyn op1 float64
 //@   nilable
 //@   requires len(op0.Value) >= 1 && len(op0.Value) <= 3
 //@   ensures implies(isnil(err), len(opOut.Value) == len(op0.Value))
 
 //@ afunc Evaluator.Sub#scalar
-//@   property C09
+//@   property C09 C06
 //@   dyn op1 float64
 //@   nilable
 //@   requires len(op0.Value) >= 1 && len(op0.Value) <= 3
@@ -132,6 +132,10 @@ package ckks
 //@   case len(op0.Value) == 2 && len(op1.Value) == 2 && len(opOut.Value) == 3
 //@   case len(op0.Value) == 2 && len(op1.Value) == 2 ; alias opOut = op0
 //@   case len(op0.Value) == 2 && len(op1.Value) == 2 ; alias opOut = op1
+//@   case len(op0.Value) == 2 && len(op1.Value) == 3 ; alias opOut = op0
+//@   case len(op0.Value) == 2 && len(op1.Value) == 3 ; alias opOut = op1
+//@   case len(op0.Value) == 3 && len(op1.Value) == 2 ; alias opOut = op0
+//@   case len(op0.Value) == 3 && len(op1.Value) == 2 ; alias opOut = op1
 //@   requires old(cmpval(op0.MetaData.PlaintextMetaData.Scale, op1.MetaData.PlaintextMetaData.Scale)) == 0
 //@   requires isntt(op0.Value[0]) && isntt(op0.Value[1]) && isntt(op1.Value[0]) && isntt(op1.Value[1]) && mexp(op0.Value[0]) == 0 && mexp(op0.Value[1]) == 0 && mexp(op1.Value[0]) == 0 && mexp(op1.Value[1]) == 0
 //@   ensures implies(isnil(err), val(opOut.Value[0]) == old(val(op0.Value[0])) + old(val(op1.Value[0])) && val(opOut.Value[1]) == old(val(op0.Value[1])) + old(val(op1.Value[1])))
@@ -150,6 +154,10 @@ package ckks
 //@   case len(op0.Value) == 2 && len(op1.Value) == 2 && len(opOut.Value) == 3
 //@   case len(op0.Value) == 2 && len(op1.Value) == 2 ; alias opOut = op0
 //@   case len(op0.Value) == 2 && len(op1.Value) == 2 ; alias opOut = op1
+//@   case len(op0.Value) == 2 && len(op1.Value) == 3 ; alias opOut = op0
+//@   case len(op0.Value) == 2 && len(op1.Value) == 3 ; alias opOut = op1
+//@   case len(op0.Value) == 3 && len(op1.Value) == 2 ; alias opOut = op0
+//@   case len(op0.Value) == 3 && len(op1.Value) == 2 ; alias opOut = op1
 //@   requires old(cmpval(op0.MetaData.PlaintextMetaData.Scale, op1.MetaData.PlaintextMetaData.Scale)) == 0
 //@   requires isntt(op0.Value[0]) && isntt(op0.Value[1]) && isntt(op1.Value[0]) && isntt(op1.Value[1]) && mexp(op0.Value[0]) == 0 && mexp(op0.Value[1]) == 0 && mexp(op1.Value[0]) == 0 && mexp(op1.Value[1]) == 0
 //@   ensures implies(isnil(err), val(opOut.Value[0]) == old(val(op0.Value[0])) - old(val(op1.Value[0])) && val(opOut.Value[1]) == old(val(op0.Value[1])) - old(val(op1.Value[1])))
